@@ -334,6 +334,8 @@ def run(rep):
     adoption_rule(rep, f)
     from . import C20
     C20.cursor_rule(rep, "C01.f")
+    from . import C15
+    C15.pool_free_rule(rep, f, "C01.g")
     diag.run(rep, f, "C01")
     rep.undecided += ["index arithmetic on input-derived values in the reader and the transcoders", "sufficiency of buffer growth steps",
                       "signed overflow and other undefined behaviour", "termination and the time bound under an entity-expansion limit",
